@@ -8,6 +8,7 @@ import (
 	"fmt"
 	"io"
 	"math/big"
+	"sync"
 
 	cose "github.com/veraison/go-cose"
 )
@@ -39,6 +40,15 @@ func (s *stubSigner) Public() crypto.PublicKey { return s.pub }
 func (s *stubSigner) Sign(io.Reader, []byte, crypto.SignerOpts) ([]byte, error) {
 	return s.out, s.err
 }
+
+// stubMessageSigner: a stubSigner that also has the SignMessage method of message-signing key handles
+type stubMessageSigner struct{ stubSigner }
+
+func (s *stubMessageSigner) SignMessage(io.Reader, []byte, crypto.SignerOpts) ([]byte, error) {
+	return s.out, s.err
+}
+
+func prm0(c elliptic.Curve) *elliptic.CurveParams { return c.Params() }
 
 func derRS(r, s *big.Int) []byte {
 	b, err := asn1.Marshal(struct{ R, S *big.Int }{r, s})
@@ -314,6 +324,15 @@ func runC16(c *Collector, r *Rng, thorough bool) {
 			}
 		}
 		if len(validSigs) > 0 {
+			// every single bit of one valid signature flipped in turn (the unused high bits of a P-521 half among them)
+			vs := validSigs[0]
+			for bit := 0; bit < 8*len(vs); bit++ {
+				fl := append([]byte{}, vs...)
+				fl[bit/8] ^= 0x80 >> uint(bit%8)
+				offer("verify/every-bit-flipped/"+ci.name, fl, true)
+			}
+		}
+		if len(validSigs) > 0 {
 			// one extra zero byte at every position of a valid signature (2n+1 bytes) must be refused
 			vs := validSigs[0]
 			for pos := 0; pos <= len(vs); pos++ {
@@ -331,6 +350,61 @@ func runC16(c *Collector, r *Rng, thorough bool) {
 		}
 		for i := 0; i < 20; i++ {
 			offer("verify/random/"+ci.name, r.Bytes(2*ci.n), false)
+		}
+		// a key handle that also offers to sign whole messages itself (SignMessage, as newer crypto.Signers do): whatever
+		// entry point the library uses, what it returns is the fixed-width form
+		{
+			rr, ss := big.NewInt(7), new(big.Int).Sub(prm0(ci.curve).N, big.NewInt(3))
+			ms := &stubMessageSigner{stubSigner: stubSigner{pub: &key.PublicKey, out: derRS(rr, ss)}}
+			if sg, err := cose.NewSigner(ci.alg, ms); err == nil {
+				want := append(rr.FillBytes(make([]byte, ci.n)), ss.FillBytes(make([]byte, ci.n))...)
+				sig, serr := sg.Sign(r, msg)
+				c.Eval("sign/message-signing-key/"+ci.name, "Sign", true)
+				if serr != nil || string(sig) != string(want) {
+					c.Fail("C16/sign-format", fmt.Sprintf("a crypto.Signer that also has SignMessage: Sign returned %x (%v), want the %d-byte r||s %x", sig, serr, 2*ci.n, want), map[string]any{"curve": ci.name})
+				}
+				if ds, ok := sg.(cose.DigestSigner); ok {
+					if sig2, err := ds.SignDigest(r, digest); err != nil || string(sig2) != string(want) {
+						c.Fail("C16/sign-format", fmt.Sprintf("a crypto.Signer that also has SignMessage: SignDigest returned %x (%v), want %x", sig2, err, want), map[string]any{"curve": ci.name})
+					}
+				}
+			}
+		}
+		// one verifier shared by goroutines that offer it, at the same time, the valid signature and byte strings that
+		// are not (halves swapped, one bit flipped, zeros): every verdict is the one it gives when asked alone
+		if len(validSigs) > 0 {
+			good := validSigs[0]
+			swapped := append(append([]byte{}, good[ci.n:]...), good[:ci.n]...)
+			flipped := append([]byte{}, good...)
+			flipped[ci.n-1] ^= 1
+			offers := [][]byte{good, swapped, flipped, make([]byte, 2*ci.n), good}
+			var wg sync.WaitGroup
+			var mu sync.Mutex
+			wrong := ""
+			for g := 0; g < 16; g++ {
+				wg.Add(1)
+				go func(g int) {
+					defer wg.Done()
+					for round := 0; round < 60; round++ {
+						o := offers[(g+round)%len(offers)]
+						var err error
+						protect(func() { err = verifier.Verify(msg, o) })
+						valid := string(o) == string(good)
+						if (err == nil) != valid {
+							mu.Lock()
+							if wrong == "" {
+								wrong = fmt.Sprintf("offered %x concurrently: Verify=%v, alone it is valid=%v", trimTo(o, 24), err, valid)
+							}
+							mu.Unlock()
+						}
+					}
+				}(g)
+			}
+			wg.Wait()
+			c.Eval("verify/shared-verifier/"+ci.name, "", true)
+			if wrong != "" {
+				c.Fail("C16/verify-verdict", "one verifier shared by 16 goroutines: "+wrong, map[string]any{"curve": ci.name})
+			}
 		}
 		// valid signatures whose s has a prescribed number of significant octets (1 .. n), each under a key made for
 		// it: k random, r = x(kG) mod N, s chosen, d = (s*k - z) / r mod N. Every total length of the two integers occurs,
